@@ -103,7 +103,7 @@ func runCase(c *core.Ctx, i int) {
 		layoutCaseL2(c, rng)
 		return
 	}
-	if i%47 == 15 {
+	if i%47 == 15 && (i/47)%2 == 1 {
 		raggedCase(c, rng)
 		return
 	}
